@@ -1,9 +1,9 @@
 package main
 
 import (
-	"math"
 	"fmt"
 	"go/token"
+	"math"
 	"strings"
 
 	"golang.org/x/tools/go/ssa"
